@@ -164,6 +164,8 @@ def strategy(tier):
         "sub_defaults": st.sampled_from([False, False, True]),
         "magic": st.sampled_from([False, False, True]),
         "wildcard_observer": st.booleans(),
+        "reregister": st.sampled_from([False, False, True]),
+        "churn": st.sampled_from([False, False, True]),
         "ops": st.lists(op_strategy(), min_size=1, max_size=30),
     })
 
@@ -201,6 +203,28 @@ def run(case, ctx):
             continue
         o.on_trait_change(otc, nm)
         o.observe(obs, nm)
+    if case.get("reregister"):
+        # registering a handler that is ALREADY registered changes nothing, whatever the priority flag says
+        for i_, nm in enumerate(NAMES):
+            if bare and nm in BARE:
+                continue
+            o.on_trait_change(otc, nm, priority=bool(i_ % 2))
+        ctx.label("handlers-registered-twice")
+    if case.get("churn"):
+        # a handler and an observer that come and go on EVERY trait before the history starts: the traits that had no
+        # handler of their own now have an (empty) notifier list of their own
+        def tmp_handler():
+            log.append(("tmp", "?", None, None))
+
+        def tmp_observer(e):
+            log.append(("tmp", e.name, None, None))
+        for nm in NAMES:
+            o.on_trait_change(tmp_handler, nm)
+            o.observe(tmp_observer, nm)
+        for nm in NAMES:
+            o.on_trait_change(tmp_handler, nm, remove=True)
+            o.observe(tmp_observer, nm, remove=True)
+        ctx.label("handlers-added-and-removed-again")
 
     def obs_any(e):
         if e.name in NAMES:
